@@ -162,7 +162,9 @@ func (r *Registry) WriteOutputs(
 }
 
 // GetNoCacheOutputHash computes the output hash for a target when target caching is disabled
-// using handler.GetHash() on local resources only
+// using handler.GetHash() on local resources only.
+// Every digest is hashed together with the output it belongs to ("<type>::<identifier>=<digest>",
+// no digest contains an '='), so outputs exchanging their contents change the hash
 func (r *Registry) GetNoCacheOutputHash(ctx context.Context, target *model.Target) (*gen.TargetResult, error) {
 	outputs := target.AllOutputs()
 
@@ -178,7 +180,7 @@ func (r *Registry) GetNoCacheOutputHash(ctx context.Context, target *model.Targe
 				return err
 			}
 			outputsMutex.Lock()
-			digests = append(digests, outputDigest)
+			digests = append(digests, localOutputRef.String()+"="+outputDigest)
 			outputsMutex.Unlock()
 			return nil
 		})
